@@ -149,6 +149,17 @@ class FakeWriter:
 
     async def drain(self):
         c = self.conn
+        # flow control: a peer that has stopped reading fills the socket buffers; drain() then waits until it
+        # reads again or goes away (asyncio's transport pauses the writer above its high-water mark)
+        while not c.reading and not c.client_gone and len(c.out) > c.capacity:
+            if not c.blocked_in_drain:
+                c.world.trace.log("drain_blocked", conn=c.cid, unread=len(c.out))
+                c.world.probe("handler_blocked_by_stalled_reader")
+            c.blocked_in_drain = True
+            fut = c.world.loop.create_future()
+            c.drain_waiters.append(fut)
+            await fut
+        c.blocked_in_drain = False
         if c.client_gone and c.reset_on_drain:
             raise ConnectionResetError("Connection lost")
 
@@ -175,6 +186,10 @@ class Conn:
         self.client_gone = False
         self.eof_sent = False
         self.reset_on_drain = reset_on_drain
+        self.reading = True  # False: the client is alive and connected but has stopped reading
+        self.capacity = getattr(world, "sock_capacity", 1 << 22)  # unread bytes the socket buffers take
+        self.drain_waiters = []
+        self.blocked_in_drain = False
         self.server_closed = False
         self.dropped_writes = 0
         self.pending = []
@@ -216,11 +231,22 @@ class Conn:
         if not self.task.done():
             self.reader.feed_eof()
 
+    def wake_drain(self):
+        ws, self.drain_waiters = self.drain_waiters, []
+        for fut in ws:
+            if not fut.done():
+                fut.set_result(None)
+
+    def resume_reading(self):
+        self.reading = True
+        self.wake_drain()
+
     def abort(self):
         """Client process dies / closes the socket without the protocol's close message."""
         if self.client_gone:
             return
         self.client_gone = True
+        self.wake_drain()
         if not self.eof_sent and not self.task.done():
             self.eof_sent = True
             self.reader.feed_eof()
@@ -604,6 +630,8 @@ class PoolWorld:
         """Read whatever the server wrote to each connection and match it to the requests (FIFO)."""
         for cid in sorted(self.conns):
             c = self.conns[cid]
+            if not c.reading:
+                continue  # a stalled client leaves everything in the socket buffers
             for ln, meta in c.take_lines():
                 try:
                     kind, msg = L.decode(ln.decode("utf-8"))
